@@ -178,6 +178,10 @@ func (p *parser) recover(errp *error) {
 
 // stopParse terminates parsing.
 func (p *parser) stopParse() {
+	if p.lex != nil {
+		// Release the lexer goroutine, it may be blocked sending a token nobody will read.
+		p.lex.stop()
+	}
 	p.lex = nil
 }
 
